@@ -203,7 +203,9 @@ def run_check(prop_id, tier, seed, out=sys.stdout):
             lines.append("INCONCLUSIVE property=%s reason=%s" % (prop_id, r[:1500].replace("\n", " | ")))
 
     wall = time.time() - t0
-    write_evidence(prop_id, tier, seed, mod, tot, digests if tot else set(), known_seen, viol_new, inconclusive, wall, nshards)
+    if os.environ.get("RTMON_NO_EVIDENCE") != "1":
+        write_evidence(
+            prop_id, tier, seed, mod, tot, digests if tot else set(), known_seen, viol_new, inconclusive, wall, nshards)
     for ln in lines:
         print(ln, file=out)
     if tot is not None:
